@@ -1,7 +1,7 @@
 (* C17 — every diagnostic is well-formed, documented, and suppressible by the code it shows. Statements only. *)
 From Coq Require Import List String ZArith Bool.
 From GG Require Import Base.Strs Model.Codes Model.IgnoreSet Model.Config Model.GoTypes Model.GoAst Model.Annots Model.Analyze Model.Impl Model.Reporter
-                       Extracted Exec Proofs.CodesProofs Proofs.ReporterProofs Proofs.DiagProofs.
+                       Extracted Exec Proofs.CodesProofs Proofs.ReporterProofs Proofs.DiagProofs Proofs.ImplProofs Proofs.ImplPosProofs.
 From GG Require Properties.C07 Properties.C14.
 Import ListNotations.
 Local Open Scope string_scope.
@@ -94,6 +94,18 @@ Theorem C17_positioned_in_a_kept_file :
        In d (tonl_file fs (p_path p) sup f) \/ In d (pkgo_file fs (p_path p) (p_name p) sup f)).
 Proof. exact C14.C14_diagnostics_come_from_kept_files. Qed.
 
+(* (3') ... and an @implements diagnostic sits at the name of a type declaration of a non-excluded file of the package *)
+Theorem C17_impl_positioned_at_a_type_of_a_kept_file :
+  forall cfg p sup d, In d (x_impl cfg p sup) ->
+    exists f decl spec, In f (p_files p) /\ should_skip cfg (f_name f) = false /\ In decl (f_decls f) /\ In spec (n_children decl) /\
+                        n_kind spec = KTypeSpec /\ d_pos d = n_pos spec.
+Proof.
+  intros cfg p sup d H. unfold x_impl, report_filter in H. apply filter_In in H. destruct H as [H _].
+  destruct (impl_diag_at_annotation _ _ _ _ _ H) as [a [Ha Hp]].
+  destruct (read_all_impl_pos _ _ _ _ _ _ _ cfg p a Ha) as (f & decl & spec & H1 & H2 & H3 & H4 & H5 & H6 & _).
+  exists f, decl, spec. repeat split; auto. congruence.
+Qed.
+
 (* (4) the comment `// @ignore CODE` with the displayed code parses to exactly that code *)
 Theorem C17_ignore_comment_of_a_code :
   forallb (fun c => match x_parse_ignore ("// @ignore " ++ c) with Some [c'] => String.eqb c c' | _ => false end) table_codes = true.
@@ -148,5 +160,6 @@ Print Assumptions C17_every_diagnostic_of_a_run_has_a_table_code.
 Print Assumptions C17_message_shape.
 Print Assumptions C17_links_to_the_category_page.
 Print Assumptions C17_positioned_in_a_kept_file.
+Print Assumptions C17_impl_positioned_at_a_type_of_a_kept_file.
 Print Assumptions C17_ignore_comment_of_a_code.
 Print Assumptions C17_suppressible_by_its_own_code.
